@@ -3,6 +3,7 @@ CONSTANTS N = 4
   Start = 1
   MaxCrashes = 1
   Variant = "asis"
+  RepairAtStart = TRUE
   AllowMissing = TRUE
 INVARIANTS TypeOK NeverFails VersionLast Completion Idempotent
 PROPERTY FinMonotone
